@@ -95,6 +95,37 @@ func (c *Ctx) checkM3BucketIdentity(rule string) {
 	if len(stores[fID]) == 0 {
 		fail(fn.Pos(), "bucket handles get no bucket id")
 	}
+	// the zero-padding width of the id must cover the largest id, which is buckets.Len() (BucketPairs
+	// yields Len()+1 pairs, ids 0..Len()): every ndigits(...) argument that feeds the width must be
+	// buckets.Len() or len(pairs) (possibly -1), never something smaller
+	if nd := c.fn(pk, "", "ndigits"); nd != nil {
+		instrsOf(fn, func(in ssa.Instruction) {
+			call, ok := in.(*ssa.Call)
+			if !ok || staticCallee(call) != nd {
+				return
+			}
+			a := stripConv(call.Call.Args[0])
+			okArg := false
+			if ic, isCall := a.(*ssa.Call); isCall {
+				if r, m := ifaceCall(ic); m != nil && m.Name() == "Len" && canon(r) == ssa.Value(fn.Params[3]) {
+					okArg = true
+				}
+				if isBuiltin(ic, "len") && canon(ic.Call.Args[0]) == ssa.Value(pairs) {
+					okArg = true
+				}
+			}
+			if bo, isBO := a.(*ssa.BinOp); isBO && bo.Op == token.SUB {
+				if ic, isCall := stripConv(bo.X).(*ssa.Call); isCall && isBuiltin(ic, "len") && canon(ic.Call.Args[0]) == ssa.Value(pairs) {
+					if k, isK := constInt(bo.Y); isK && k == 1 {
+						okArg = true
+					}
+				}
+			}
+			if !okArg {
+				fail(call.Pos(), "the zero-padding width of the bucket id is derived from something other than the number of buckets (the largest id is buckets.Len()): for some bucket counts the ids no longer sort in bound order")
+			}
+		})
+	}
 	// upper bound fields from the matching accessor of this pair
 	for f, m := range map[*types.Var]string{fVU: "UpperBoundValue", fDU: "UpperBoundDuration"} {
 		for _, st := range stores[f] {
